@@ -185,6 +185,13 @@ func (e *Engine) builtin(st *state, fr *frame, in ssa.CallInstruction, name stri
 		if _, isMap := c.Args[0].Type().Underlying().(*types.Map); isMap {
 			e.addEvent(st, fr, &Event{Kind: EvMapRead, Mode: "len", Recv: args[0]}, in)
 		}
+		x := args[0]
+		for x.Op == "slice" && x.Args[1] == nil && x.Args[2] == nil {
+			x = x.Args[0]
+		}
+		if x.Op == "makeslice" { // the length of a made slice is what make was given, whatever has been read into it
+			return one(st, x.Args[0])
+		}
 		return one(st, mkLen(e.contentOf(st, args[0])))
 	case "cap":
 		if args[0].Op == "makeslice" {
